@@ -214,6 +214,27 @@ def run(ctx: Ctx):
     col.ob("G12", "S4", f"{rel}::transcript_to_token::end>=start+1", okmax,
            "a non-empty segment may collapse to zero frames (end = max(end, start + 1) missing)", rel, t2t.line)
 
+    # the unknown symbol is looked up in the map only where it is a key; otherwise it already IS the identifier (documented)
+    pm_t = parent_map(t2t.node)
+    unk_defs = []
+    for n in own_nodes(t2t.node):
+        if isinstance(n, ast.Assign) and len(n.targets) == 1 and isinstance(n.targets[0], ast.Name) and n.targets[0].id == "unk":
+            v = n.value
+            if isinstance(v, ast.Subscript) and u(v.slice) == "unk":
+                guarded = any(pol and any(isinstance(c, ast.Compare) and len(c.ops) == 1 and isinstance(c.ops[0], ast.In)
+                                          and u(c.left) == "unk" and u(c.comparators[0]) == u(v.value) for c in ast.walk(t))
+                              for t, pol in guards_of(pm_t, n))
+                unk_defs.append((n, guarded))
+            elif isinstance(v, ast.Call) and isinstance(v.func, ast.Attribute) and v.func.attr == "get" and v.args and u(v.args[0]) == "unk":
+                unk_defs.append((n, len(v.args) == 2 and u(v.args[1]) == "unk"))
+            else:
+                unk_defs.append((n, False))
+    badu = [n for n, ok_ in unk_defs if not ok_]
+    col.ob("G13", "S4", f"{rel}::transcript_to_token::unknown-symbol-kept-when-it-is-not-a-key", bool(unk_defs) and not badu,
+           f"`{u(badu[0]) if badu else ''}` replaces `unk` by a map lookup that has no fallback to the given value: an `unk` that is "
+           f"already an identifier (not a key of token2id, the documented second form) becomes None / raises, and out-of-vocabulary "
+           f"tokens are then written as themselves", rel, badu[0].lineno if badu else t2t.line, sample=[u(n) for n, _ in unk_defs])
+
     # ---- S5 tier bounds come from one object ----------------------------------------------------------------------
     rt = pkg.func(f"{MOD}::read_textgrid")
     mins = [n for n in own_nodes(rt.node) if isinstance(n, ast.Attribute) and n.attr == "xmin" and isinstance(n.ctx, ast.Load)]
@@ -342,6 +363,7 @@ def _mutants():
     from selftest.mutate import Mutant as M
     P = "_parsing.py"
     return [
+        M("unk-lookup-without-fallback", "_parsing.py", "if token2id is not None and unk in token2id:\n        unk = token2id[unk]", "if token2id is not None:\n        unk = token2id.get(unk)", "unknown-symbol-kept-when-it-is-not-a-key"),
         M("intervals-sorted-as-text", "_parsing.py", "for x in sorted(tier.simple_transcript, key=lambda x: float(x[0]))", "for x in sorted(tier.simple_transcript)", "records-sorted-by-numeric-time", 1),
         M("repaired:textgrid-path-forwards-point-tier", "_parsing.py", "return write_textgrid(transcript, tg, start_time, end_time, tier_name, precision=precision)", "return write_textgrid(transcript, tg, start_time, end_time, tier_name, point_tier, precision)", "", twin=True),
         M("root-alternates-not-drained", "_parsing.py", "transcript.append((alt_tree.tokens[0], -1, -1))\n                alt_tree.tokens = []", "transcript.append((alt_tree.tokens[0], -1, -1))", "emitted-accumulator-is-drained"),
